@@ -539,6 +539,9 @@ func (w *e1World) evaluate(s *sched, cfg *e1Config) {
 		sq := seqs[i]
 		for k := 1; k < len(sq); k++ {
 			prev, cur, o := sq[k-1].set, sq[k].set, sq[k].op
+			if d := diff(sortedKeys(prev), sortedKeys(cur)); len(d) > 0 {
+				r.Violate(prop+":entries-vanished", "%s held %v before a %s and no longer after it", w.names[i], w.names_(d), kindNames[o.d.kind])
+			}
 			switch o.d.kind {
 			case kAppend:
 				if o.err != nil {
@@ -553,7 +556,7 @@ func (w *e1World) evaluate(s *sched, cfg *e1Config) {
 					r.Violate(prop+":append-next", "entry %s appended to %s names %v, the heads at that instant were %v", w.name(o.hash), w.names[i], w.names_(nx), w.names_(hd))
 				}
 				for h := range prev {
-					if w.reg[h].Time >= o.time {
+					if w.reg[h] != nil && w.reg[h].Time >= o.time {
 						r.Violate(prop+":append-clock", "entry %s appended to %s has time %d, the log held time %d", w.name(o.hash), w.names[i], o.time, w.reg[h].Time)
 					}
 				}
